@@ -48,8 +48,13 @@ def ref_read_frame(gen, fr):
     return "uncompared", None
 
 
+STREAMS = set()
+MEANING = [0]
+
+
 def feed_and_judge(gen, raw, probe, label, then=None):
     """Feed ``raw`` (+ optional EOF / follow-up) to a fresh receive path; judge per the C17 oracle."""
+    STREAMS.add((gen, then, raw))
     w = c06.RxWorld(gen)
     t = w.net.live()[-1]
     t.peer_send(raw)
@@ -69,6 +74,7 @@ def feed_and_judge(gen, raw, probe, label, then=None):
                 ok_all = False
                 break
         if ok_all:
+            MEANING[0] += 1
             # every frame has a defined meaning: what is delivered must be that meaning, in order, as a prefix
             if len(got) > len(exp):
                 return f"{label}: {len(got)} messages delivered for {len(exp)} frames"
@@ -278,8 +284,12 @@ def run(tier, seed, part=None):
     res = explorer.pool().starmap(_call, jobs, chunksize=1)
     total = 0
     kinds = {}
-    for (fn, args), (n, sig, msg) in zip(jobs, res):
+    distinct = 0
+    meaning = 0
+    for (fn, args), (n, sig, msg, k) in zip(jobs, res):
         total += n
+        distinct += k[0]
+        meaning += k[1]
         kinds[fn.__name__] = kinds.get(fn.__name__, 0) + n
         if isinstance(sig, list):
             for sg, m in sig:
@@ -289,12 +299,18 @@ def run(tier, seed, part=None):
     chk.cov["by_family"] = kinds
     chk.samples += [{"input": "at4 frame type 0x99 with 8 payload bytes"}, {"input": "at5 zone-status frame, byte 23 := 0x80, CRC recomputed"},
                     {"input": "at4 ability frame truncated at byte 17 then EOF"}]
-    return chk.finish({"evaluations": total, "distinct_nontrivial": total, "exhaustive": True,
+    chk.cov["judged_by_meaning"] = meaning
+    return chk.finish({"evaluations": total, "distinct_nontrivial": distinct, "exhaustive": True,
                        "rule": "one evaluation = one byte stream fed to the real receive path followed by intact probe frames; streams are "
                                "distinct by construction (type x length, sub-id x length, 0xC0 sub-type x header corners, every byte "
-                               "position x every value with recomputed CRC, every truncation point, concatenations); every one is judged "
-                               "(meaning, unsupported pass-through or survival)"})
+                               "position x every value with recomputed CRC, every truncation point, concatenations); distinct_nontrivial = number of "
+                               "distinct byte streams (counted with a set per job); judged_by_meaning = how many had a fully defined reference "
+                               "reading and were compared with it, the rest were judged for survival"})
 
 
 def _call(fn, args):
-    return fn(args)
+    r = fn(args)
+    k = (len(STREAMS), MEANING[0])
+    STREAMS.clear()
+    MEANING[0] = 0
+    return r + (k,)
